@@ -3,6 +3,7 @@ import SeqVerif.Model.StoreSearch
 import SeqVerif.Model.ApiSpec
 import SeqVerif.Model.MergeAggs
 import SeqVerif.Model.AggShard
+import SeqVerif.Model.AggSource
 import SeqVerif.Extracted.C05
 /-!
 # C05 - results are independent of how documents are split over fractions and shards
@@ -244,6 +245,15 @@ with a container with one value and `NotExists = 1` keeps all three value-less d
 theorem c05_sc_merge_valueless_first :
     (Agg.SC.merge 8096 (fun _ => 0) ⟨Agg.maxInt64, Agg.minInt64, 0, 0, 2, []⟩ ⟨5, 5, 5, 1, 1, []⟩).notExists = 3 := by decide
 
+/-- **the group name of an aggregation source is `tokens[tids[source]]`, whatever the cache holds** - so it does not
+depend on the fraction's own TID numbering, i.e. on how the corpus is split (Model/AggSource.lean; the cache of
+`SourcedNodeIterator.ValueBySource` is read and written under the same key: `c05_x_value_by_source`) -/
+theorem c05_value_by_source (tokens : List String) (tids : List Nat) (count : Nat → Nat) (cache : List (Nat × String))
+    (source : Nat) (h : AggSource.CacheOK tokens tids cache) :
+    (AggSource.valueBySource id id tokens tids count cache source).1 = AggSource.tokenOf tokens (tids.getD source 0) ∧
+    AggSource.CacheOK tokens tids (AggSource.valueBySource id id tokens tids count cache source).2 :=
+  AggSource.valueBySource_id tokens tids count cache source h
+
 /-! ## the public request: proxy request -> store request -> parameters -> result (Model/ApiSearch.lean) -/
 
 open SV.Api in
@@ -396,6 +406,11 @@ theorem c05_no_silent_short (codes : List Agg.Code) (n : Nat)
     (hok : Agg.searchOutcome (codes.map (Agg.shardOutcome shardCodeArms)) = .ok n) :
     n = codes.length ∧ ∀ c, c ∈ codes → c = .noError :=
   Agg.searchOutcome_ok shardCodeArms c05_x_shard_codes codes n hok
+
+/-- `ValueBySource`: every use of `s.tokensCache` is keyed by the same expression (`source`), and every token lookup
+is `GetValByTID(s.tids[source])` - the `id id` instance of `SV.AggSource.valueBySource` -/
+theorem c05_x_value_by_source :
+    valueBySourceCacheKeys = ["source", "source"] ∧ valueBySourceTokens = ["s.tids[source]", "s.tids[source]"] := by decide
 
 /-! ## Non-vacuity: the hypotheses are met by concrete non-trivial layouts -/
 
